@@ -92,23 +92,28 @@ def reverse_iter_lines(file_obj, blocksize=DEFAULT_BLOCKSIZE, preseek=True, enco
     if preseek:
         file_obj.seek(0, os.SEEK_END)
     buff = empty_bytes
-    cur_pos = file_obj.tell()
+    cur_pos = start_pos = file_obj.tell()
     while 0 < cur_pos:
         read_size = min(blocksize, cur_pos)
         cur_pos -= read_size
         file_obj.seek(cur_pos, os.SEEK_SET)
         cur = file_obj.read(read_size)
         buff = cur + buff
-        lines = buff.splitlines()
-
-        if len(lines) < 2 or lines[0] == empty_bytes:
+        if 0 < cur_pos and buff[:1] == newline_bytes:
+            # may be the second half of a '\r\n' whose '\r' is in the next block
             continue
-        if buff[-1:] == newline_bytes:
-            yield empty_text if encoding else empty_bytes
+        lines = buff.splitlines()
+        if buff[-1:] in (newline_bytes, b'\r'):
+            # splitlines() drops the empty line that follows a final line break
+            lines.append(empty_bytes)
+
+        if len(lines) < 2:
+            continue
         for line in lines[:0:-1]:
             yield line.decode(encoding) if encoding else line
         buff = lines[0]
-    if buff:
+    if 0 < start_pos:
+        # whatever precedes the first line break is a line, even an empty one
         yield buff.decode(encoding) if encoding else buff
 
 
